@@ -112,6 +112,34 @@ func formTD() *typeDesc {
 	return &typeDesc{name: "form.Data", codec: "form_c", level: "A",
 		fresh: func() interface{} { return &form.Data{} },
 		proj:  func(p interface{}) interface{} { return RawCoq(coqData(p.(*form.Data))) },
+		eq:    func(p interface{}) interface{} { return projForm(p.(*form.Data)) },
+		dirty: func(r *hx.Rand) interface{} {
+			var d *form.Data
+			if p := hx.Catch(func() { d = genFormScript(r).build() }); p != "" || d == nil {
+				return nil
+			}
+			return d
+		},
+		intoChecker: "form_into_ok",
+		intoOld:     func(dst interface{}) string { return coqData(dst.(*form.Data)) },
+		// form.Data.UnmarshalXML: type and title only when present, instruction lines and fields
+		// added to the ones the form has (encoding/xml's convention for repeated children)
+		dirtyCheck: func(old, fresh, got interface{}) string {
+			o, f, g := old.(pForm), fresh.(pForm), got.(pForm)
+			if g.Typ != f.Typ && g.Typ != o.Typ {
+				return "Typ"
+			}
+			if g.Title != f.Title && g.Title != o.Title {
+				return "Title"
+			}
+			if g.Instr != f.Instr && g.Instr != o.Instr && g.Instr != o.Instr+"\n"+f.Instr {
+				return "Instr"
+			}
+			if len(g.Fields) != len(o.Fields)+len(f.Fields) || fmt.Sprint(g.Fields) != fmt.Sprint(append(append([]form.VerifField{}, o.Fields...), f.Fields...)) {
+				return "Fields"
+			}
+			return ""
+		},
 	}
 }
 
